@@ -251,6 +251,8 @@ func main() {
 	budget := flag.Float64("budget-s", 0, "wall-clock cap in seconds (0 = none)")
 	scale := flag.Float64("scale", 1, "scale the number of random runs")
 	skip := flag.String("skip", "", "comma-separated case indexes to skip (fatal in an earlier attempt)")
+	coldSeed := flag.Uint64("cold-seed", 0, "(internal) run one case from this chooser seed in this fresh process and print its outcome")
+	coldTrace := flag.String("cold-trace", "", "(internal) like -cold-seed, from a recorded trace")
 	noMin := flag.Bool("no-minimise", false, "do not minimise violations (restarted shards)")
 	stall := flag.Float64("stall-s", 10, "a single case running longer than this is reported as a hang and ends the worker (exit 3)")
 	flag.Parse()
@@ -272,6 +274,19 @@ func main() {
 
 	if *replay != "" {
 		os.Exit(doReplay(p, *replay))
+	}
+	if *coldSeed != 0 || *coldTrace != "" {
+		c := verifsim.NewChooser(*coldSeed)
+		if *coldTrace != "" {
+			var tr []int32
+			b, _ := os.ReadFile(*coldTrace)
+			json.Unmarshal(b, &tr)
+			c = verifsim.NewReplay(tr)
+		}
+		o := p.Run(c, newStats(), true)
+		b, _ := json.Marshal(map[string]interface{}{"digest": o.Digest.H, "nontrivial": o.Nontrivial, "ticks": o.Ticks, "violations": o.V, "trace": c.Values(), "sample": o.Sample})
+		fmt.Println(string(b))
+		return
 	}
 
 	enum := p.Enumerate(*tier)
